@@ -2,6 +2,7 @@ package props
 
 import (
 	"fmt"
+	"strconv"
 	"testing"
 
 	"verifharness/gen"
@@ -15,7 +16,7 @@ import (
 
 type bigDecCase struct {
 	Prop   string `json:"prop"`  // C03 | C04 | C12
-	Shape  string `json:"shape"` // lit-then-match | matchlen-2^32 | litlen-2^32 | overlap | zero-run-then-dict
+	Shape  string `json:"shape"` // lit-then-match | matchlen-2^32 | litlen-2^32 | overlap | zero-run-then-dict | straddle-then-dict
 	A      int    `json:"a"`
 	B      int    `json:"b"`
 	DstLen int    `json:"dstlen"` // 0: exactly the decoded size; < 0: decoded size + |DstLen|
@@ -99,6 +100,43 @@ func (c bigDecCase) build() decCase {
 		b = seqBytes(b, text(10, 7), c.A, c.B)
 		b = seqBytes(b, []byte("vwxyz"), 0, 0)
 		d.Src, size = b, 10+c.B+5
+	case "match-2GiB":
+		// one literal, a match at offset 1 of 2^31 + A bytes (a length field whose running sum has bit 31 set), 5 closing literals;
+		// the destination really holds it. Outputs are compared by digest. (C12 only: the reference decoder is not run on it.)
+		shift := uint(31)
+		two31 := int(int64(1) << shift) // (only reached on 64-bit platforms; not a constant, so that the 32-bit build compiles)
+		b := seqBytes(nil, []byte("x"), 1, two31+c.A)
+		b = seqBytes(b, []byte("abcde"), 0, 0)
+		d.Src, size = b, 1+two31+c.A+5
+		d.HashOut, d.Spare, d.Fill = true, 64, 0
+	case "dict-4GiB":
+		// a dictionary of 2^32 + A bytes (zeros, then 64 bytes of pattern at its end); 3 literals, a match inside the pattern,
+		// one straddling the end of the dictionary, 12 closing literals
+		d.DictZeros = int64(1)<<32 + int64(c.A) - 64
+		d.Dict = text(64, 21)
+		var b []byte
+		b = seqBytes(b, []byte("xyz"), 3+40, 16)
+		b = seqBytes(b, []byte("ab"), 21+9, 30)
+		b = seqBytes(b, text(12, 22), 0, 0)
+		d.Src, size = b, 3+16+2+30+12
+	case "straddle-then-dict":
+		// 3 literals, a match that takes A bytes from the end of the dictionary and then runs on, overlapping itself, for B more
+		// than its offset; then, after 3 literals, a match inside the dictionary and one straddling its end; 12 closing literals.
+		// (what the copy of the dictionary part leaves in the registers must not matter to the matches that follow)
+		d.Dict = text(2000, 13)
+		var b []byte
+		pos := 3
+		off := pos + c.A
+		ml := c.A + off + c.B
+		b = seqBytes(b, []byte("xyz"), off, ml)
+		pos += ml
+		b = seqBytes(b, []byte("abc"), pos+3+700, 20)
+		pos += 3 + 20
+		b = seqBytes(b, []byte("de"), pos+2+9, 30)
+		pos += 2 + 30
+		b = seqBytes(b, text(12, 14), 0, 0)
+		d.Src, size = b, pos+12
+		d.NoArena = false
 	case "zero-run-then-dict":
 		// two zero bytes, a run of A more at offset 1, then a match inside the dictionary, one straddling its end, B closing literals
 		d.Dict = text(1000, 9)
@@ -165,6 +203,19 @@ func bigDecCases(prop string) []bigDecCase {
 	for _, n := range over {
 		for _, off := range []int{3, 7, 10} {
 			cs = append(cs, bigDecCase{Prop: prop, Shape: "overlap", A: off, B: n})
+		}
+	}
+	if prop == "C12" && strconv.IntSize == 64 {
+		for _, a := range []int{4096, 70000} {
+			cs = append(cs, bigDecCase{Prop: prop, Shape: "dict-4GiB", A: a}, bigDecCase{Prop: prop, Shape: "dict-4GiB", A: a, DstLen: -5})
+		}
+		if thorough() {
+			cs = append(cs, bigDecCase{Prop: prop, Shape: "match-2GiB", A: 100}, bigDecCase{Prop: prop, Shape: "match-2GiB", A: 1 << 30})
+		}
+	}
+	for _, fromDict := range []int{16, 200, 255, 256, 257, 300, 1024, 1990} {
+		for _, extra := range []int{1, 40, 3000} {
+			cs = append(cs, bigDecCase{Prop: prop, Shape: "straddle-then-dict", A: fromDict, B: extra}, bigDecCase{Prop: prop, Shape: "straddle-then-dict", A: fromDict, B: extra, DstLen: -33})
 		}
 	}
 	for _, run := range []int{4094, 4095, 4096, 5000, 70000} {
